@@ -379,6 +379,29 @@ func (s *Sim) park(t *Task, site string) {
 	}
 }
 
+// Statement reach (VERIF_COVER): which instrumented statements of server/rib/client a batch of
+// runs executed inside a simulation. A measuring aid only (./check cover): it draws nothing
+// from the tapes and never decides which task runs next.
+var (
+	coverOn  bool
+	coverMu  sync.Mutex
+	coverHit = map[string]int64{}
+)
+
+// CoverEnable switches statement-reach recording on for this process.
+func CoverEnable() { coverOn = true }
+
+// CoverSnapshot returns the statements reached so far.
+func CoverSnapshot() map[string]int64 {
+	coverMu.Lock()
+	defer coverMu.Unlock()
+	out := make(map[string]int64, len(coverHit))
+	for k, v := range coverHit {
+		out[k] = v
+	}
+	return out
+}
+
 // Point is a statement-level preemption point.
 func Point(site string) {
 	s := active.Load()
@@ -388,6 +411,11 @@ func Point(site string) {
 	t := s.taskOfG()
 	if t == nil {
 		return
+	}
+	if coverOn {
+		coverMu.Lock()
+		coverHit[site]++
+		coverMu.Unlock()
 	}
 	if s.cfg.CoRelease {
 		if t.running.Load() {
